@@ -305,6 +305,8 @@ func applyFieldOp(op string, fs []string) []string {
 				out = append(out, x)
 			}
 		}
+	case strings.HasPrefix(op, "dropdup:"):
+		out = append(applyFieldOp("drop:"+strings.TrimPrefix(op, "dropdup:"), fs), "command")
 	case strings.HasPrefix(op, "add:"):
 		out = append(out, strings.TrimPrefix(op, "add:"))
 	default:
@@ -405,7 +407,7 @@ func c01Event(c obj, seed int64) obj {
 			// a GENUINE signature by the signer's key over everything but one mandatory field (made through a fielder that
 			// leaves the field out). Verification refuses it for the missing field - also right after having refused
 			// signatures that lacked OTHER mandatory fields (history is part of the case)
-			dropped := strings.TrimPrefix(c["fieldop"].(string), "drop:")
+			dropped := strings.TrimPrefix(strings.TrimPrefix(c["fieldop"].(string), "dropdup:"), "drop:")
 			for _, other := range []string{"repository_url", "plugins", "env", "matrix", "command"} {
 				if other == dropped {
 					continue
@@ -421,6 +423,10 @@ func c01Event(c obj, seed int64) obj {
 				panic("driver: partial signature: " + err.Error())
 			}
 			rec = ps
+			if strings.HasPrefix(c["fieldop"].(string), "dropdup:") {
+				// the field list names another mandatory field twice: as many ENTRIES as there are mandatory fields
+				rec.SignedFields = append(append([]string{}, rec.SignedFields...), "command")
+			}
 		case "attach":
 			// header..signature -> header.<original payload>.signature : a valid ATTACHED JWS of the original step
 			if len(plog.payloads) != 1 {
